@@ -280,8 +280,11 @@ class JsonDeserializer {
 
           // Allocate slot in object
           member = object.addMember(savedKey, resources_);
-          if (!member)
+          if (!member) {
+            // give back the reference taken by save()
+            resources_->dereferenceString(savedKey->data);
             return DeserializationError::NoMemory;
+          }
         } else {
           member->clear(resources_);
         }
